@@ -144,6 +144,19 @@ func writerFamily(r interface{ Intn(int) int }, cid string, word func() string) 
 			Partitions: []produce.RequestPartition{{Partition: 0, RecordSet: protocol.RecordSet{Records: protocol.NewRecordReader()}}}}}}
 		emitV("produce", cid, adv, want, raw)
 	}
+	// … with explicit message times that go BACKWARDS inside the batch: the timestamp delta of a v2 record is the only varint of the
+	// Conn codec that can be negative (varIntLen / writeVarInt must agree on its zig-zag length, or the announced sizes are off)
+	for adv := int16(2); adv <= 8; adv++ {
+		base := time.Unix(1600000000+int64(r.Intn(100000)), 0)
+		ms := []kafka.Message{{Key: []byte(word()), Value: []byte(word()), Time: base}}
+		for _, back := range []time.Duration{time.Millisecond, 70 * time.Millisecond, 9 * time.Second, 40 * time.Hour} {
+			ms = append(ms, kafka.Message{Key: []byte(word()), Value: []byte(word()), Time: base.Add(-back)})
+		}
+		raw := capture(cid, map[int16]int16{0: adv}, func(c *kafka.Conn) { c.WriteMessages(ms...) })
+		want := &produce.Request{Acks: -1, Timeout: wild, Topics: []produce.RequestTopic{{Topic: "t",
+			Partitions: []produce.RequestPartition{{Partition: 0, RecordSet: protocol.RecordSet{Records: protocol.NewRecordReader()}}}}}}
+		emitV("produce", cid, adv, want, raw)
+	}
 	for adv := int16(2); adv <= 11; adv++ {
 		off := int64(r.Intn(1000))
 		minB, maxB := 1+r.Intn(100), 1000+r.Intn(100000)
